@@ -157,6 +157,8 @@ def same_tokens(a, b):
 
 
 def run(ctx):
+    if ctx.replay:
+        return T.replay(ctx)
     ctx.add_obligations(vcheck.coq_props("Table", "C13"))
     ctx.cov["checker_cmd"] = ("coqc -Q coq/Table BWTable coq/Table/Props/C13.v; work/bin/h_table -mode expr|e2e13|replay13; "
                               "Corr.expr_verdict / e2e13_verdict evaluated by vm_compute")
